@@ -85,7 +85,20 @@ func c06One(wl Workload, f faultSpec, res *c06Res) {
 			return false
 		}
 		// the store keeps exposing a batch-prefix state, never older than before
-		p, d := w.storePrefix()
+		ps, d := w.storePrefixes()
+		p := -1
+		if len(ps) > 0 {
+			// when several prefixes have the same content (a batch restored an earlier content) the store is taken to be
+			// at the oldest one that is not behind what it showed before: "never older than before" is violated only if
+			// no matching prefix is at or after the previous one
+			p = ps[len(ps)-1]
+			for _, q := range ps {
+				if q >= lastP {
+					p = q
+					break
+				}
+			}
+		}
 		if d != nil && p < 0 {
 			add("store-not-a-prefix-state|"+f.Kind+"-"+f.Mode+"|any", fmt.Sprintf("%s: the store's own snapshot is not the reference content after any prefix: %s", where, d))
 			return false
